@@ -22,17 +22,21 @@ from _ast import BitOr
 from _ast import BitXor
 from _ast import Div
 from _ast import Eq
+from _ast import expr
 from _ast import FloorDiv
 from _ast import Gt
 from _ast import GtE
 from _ast import If
+from _ast import IfExp
 from _ast import In
 from _ast import Invert
 from _ast import Is
 from _ast import IsNot
+from _ast import Lambda
 from _ast import LShift
 from _ast import Lt
 from _ast import LtE
+from _ast import MatMult
 from _ast import Mod
 from _ast import Mult
 from _ast import Name
@@ -40,11 +44,14 @@ from _ast import Not
 from _ast import NotEq
 from _ast import NotIn
 from _ast import Or
+from _ast import Pow
 from _ast import PyCF_ONLY_AST
 from _ast import RShift
 from _ast import Sub
+from _ast import Tuple
 from _ast import UAdd
 from _ast import USub
+from ast import unparse
 
 BOOLOP_SYMBOLS = {And: "and", Or: "or"}
 
@@ -52,9 +59,11 @@ BINOP_SYMBOLS = {
     Add: "+",
     Sub: "-",
     Mult: "*",
+    MatMult: "@",
     Div: "/",
     FloorDiv: "//",
     Mod: "%",
+    Pow: "**",
     LShift: "<<",
     RShift: ">>",
     BitOr: "|",
@@ -241,33 +250,33 @@ class SourceGenerator(NodeVisitor):
             self.body(node.orelse)
 
     def signature(self, node):
-        want_comma = []
-
-        def write_comma():
-            if want_comma:
-                self.write(", ")
-            else:
-                want_comma.append(True)
-
-        padding = [None] * (len(node.args) - len(node.defaults))
-        for arg, default in zip(node.args, padding + node.defaults):
-            write_comma()
-            self.visit(arg)
-            if default is not None:
-                self.write("=")
-                self.visit(default)
-        if node.vararg is not None:
-            write_comma()
-            self.write("*" + node.vararg.arg)
-        if node.kwarg is not None:
-            write_comma()
-            self.write("**" + node.kwarg.arg)
+        # all parameter kinds, their defaults and the "/" and "*" markers
+        self.write(unparse(node))
 
     def decorators(self, node):
         for decorator in node.decorator_list:
             self.newline()
             self.write("@")
             self.visit(decorator)
+
+    def generic_visit(self, node):
+        # expression forms that have no visitor of their own (f-strings,
+        # assignment expressions, await, ...) are written by the standard
+        # library
+        if isinstance(node, expr):
+            self.write("(%s)" % unparse(node))
+        else:
+            NodeVisitor.generic_visit(self, node)
+
+    def visit_operand(self, node):
+        # conditional expressions and lambdas bind looser than any
+        # operator; as an operand they need their own parentheses
+        if isinstance(node, (IfExp, Lambda)):
+            self.write("(")
+            self.visit(node)
+            self.write(")")
+        else:
+            self.visit(node)
 
     # Statements
 
@@ -482,7 +491,7 @@ class SourceGenerator(NodeVisitor):
     # Expressions
 
     def visit_Attribute(self, node):
-        self.visit(node.value)
+        self.visit_operand(node.value)
         self.write("." + node.attr)
 
     def visit_Call(self, node):
@@ -494,14 +503,17 @@ class SourceGenerator(NodeVisitor):
             else:
                 want_comma.append(True)
 
-        self.visit(node.func)
+        self.visit_operand(node.func)
         self.write("(")
         for arg in node.args:
             write_comma()
             self.visit(arg)
         for keyword in node.keywords:
             write_comma()
-            self.write(keyword.arg + "=")
+            if keyword.arg is None:
+                self.write("**")
+            else:
+                self.write(keyword.arg + "=")
             self.visit(keyword.value)
         if getattr(node, "starargs", None):
             write_comma()
@@ -551,16 +563,19 @@ class SourceGenerator(NodeVisitor):
         for idx, (key, value) in enumerate(zip(node.keys, node.values)):
             if idx:
                 self.write(", ")
-            self.visit(key)
-            self.write(": ")
+            if key is None:
+                self.write("**")
+            else:
+                self.visit(key)
+                self.write(": ")
             self.visit(value)
         self.write("}")
 
     def visit_BinOp(self, node):
         self.write("(")
-        self.visit(node.left)
+        self.visit_operand(node.left)
         self.write(" %s " % BINOP_SYMBOLS[type(node.op)])
-        self.visit(node.right)
+        self.visit_operand(node.right)
         self.write(")")
 
     def visit_BoolOp(self, node):
@@ -568,15 +583,15 @@ class SourceGenerator(NodeVisitor):
         for idx, value in enumerate(node.values):
             if idx:
                 self.write(" %s " % BOOLOP_SYMBOLS[type(node.op)])
-            self.visit(value)
+            self.visit_operand(value)
         self.write(")")
 
     def visit_Compare(self, node):
         self.write("(")
-        self.visit(node.left)
+        self.visit_operand(node.left)
         for op, right in zip(node.ops, node.comparators):
             self.write(" %s " % CMPOP_SYMBOLS[type(op)])
-            self.visit(right)
+            self.visit_operand(right)
         self.write(")")
 
     def visit_UnaryOp(self, node):
@@ -585,13 +600,22 @@ class SourceGenerator(NodeVisitor):
         self.write(op)
         if op == "not":
             self.write(" ")
-        self.visit(node.operand)
+        self.visit_operand(node.operand)
         self.write(")")
 
     def visit_Subscript(self, node):
-        self.visit(node.value)
+        self.visit_operand(node.value)
         self.write("[")
-        self.visit(node.slice)
+        if isinstance(node.slice, Tuple) and node.slice.elts:
+            # a[1:2, 3]: slices are only legal directly inside the brackets
+            for idx, item in enumerate(node.slice.elts):
+                if idx:
+                    self.write(", ")
+                self.visit(item)
+            if len(node.slice.elts) == 1:
+                self.write(",")
+        else:
+            self.visit(node.slice)
         self.write("]")
 
     def visit_Slice(self, node):
@@ -646,15 +670,15 @@ class SourceGenerator(NodeVisitor):
         self.write("}")
 
     def visit_IfExp(self, node):
-        self.visit(node.body)
+        self.visit_operand(node.body)
         self.write(" if ")
-        self.visit(node.test)
+        self.visit_operand(node.test)
         self.write(" else ")
         self.visit(node.orelse)
 
     def visit_Starred(self, node):
         self.write("*")
-        self.visit(node.value)
+        self.visit_operand(node.value)
 
     def visit_Repr(self, node):
         # XXX: python 2.6 only
@@ -673,11 +697,11 @@ class SourceGenerator(NodeVisitor):
         self.write(" for ")
         self.visit(node.target)
         self.write(" in ")
-        self.visit(node.iter)
+        self.visit_operand(node.iter)
         if node.ifs:
             for if_ in node.ifs:
                 self.write(" if ")
-                self.visit(if_)
+                self.visit_operand(if_)
 
     def visit_excepthandler(self, node):
         self.newline()
